@@ -106,6 +106,17 @@ theorem pad_crop {α : Type} [Inhabited α] (zero : α) (a : Arr α) (w : List (
     applyPlan (padNd zero a w) (padCropPlan a.shape w) = a :=
   pad_crop_nd zero a w hw ha
 
+/-- **`pad` followed by `crop` of the pad widths returns the original data (N-D, through the
+model of `Dataset.crop`)**: on the padded array, the index expression `Dataset.crop` builds for
+`crop_widths = ((before, -after), …)` (all axes; `after = 0 ↦ None`) is accepted by the NumPy
+index normalisation and applying it gives back the original array — for every shape, width
+list (in particular the floor/ceil widths of `pad(output_shape=…)`) and element type. -/
+theorem pad_then_crop {α : Type} [Inhabited α] (zero : α) (a : Arr α) (w : List (Nat × Nat))
+    (hw : w.length = a.shape.length) (ha : a.data.length = prod a.shape) :
+    ∃ p, plan (padNd zero a w).shape (cropIxOfPad w) = .ok p ∧ applyPlan (padNd zero a w) p = a := by
+  refine ⟨_, plan_crop_of_pad a.shape w hw, ?_⟩
+  exact pad_crop_nd zero a w hw ha
+
 /-! ### Fourier resampling: the frequency bookkeeping -/
 
 /-- the executable index map has one entry per output bin -/
